@@ -1,3 +1,600 @@
 package main
 
-func cmdCheck(args []string) { fatalf("check: not yet") }
+// check: property-level driver.  Runs the harnesses registered for a property,
+// replays every counterexample natively, classifies it against
+// known_findings.txt, validates a sample of passing paths against the
+// compiled code, and writes evidence/<id>.json.
+
+import (
+	"bufio"
+	"crypto/sha1"
+	"encoding/json"
+	"flag"
+	"fmt"
+	"os"
+	"os/exec"
+	"path/filepath"
+	"regexp"
+	"sort"
+	"strings"
+	"time"
+)
+
+type HarnessSpec struct {
+	Name     string
+	Pkg      string // directory under harness/
+	Quick    map[string]int
+	Thorough map[string]int
+	Solver   string
+	Schedule bool
+	MapOrder bool
+	Preempt  int
+	Race     bool
+	PoolDirty bool
+	MaxSteps int
+	QuickWall, ThoroughWall time.Duration
+	TimeoutMS int
+	// SkipThorough / SkipQuick: run only in one tier
+	OnlyThorough bool
+	NoNative     bool // native replay impossible (e.g. schedule-dependent); cex reported as engine-only
+	Note         string
+}
+
+type knownFinding struct {
+	Property string
+	Key      string
+	Desc     string
+}
+
+func loadKnown(verifDir string) (known []knownFinding, fixed []string) {
+	f, err := os.Open(filepath.Join(verifDir, "known_findings.txt"))
+	if err != nil {
+		return nil, nil
+	}
+	defer f.Close()
+	sc := bufio.NewScanner(f)
+	re := regexp.MustCompile(`^known:\s+property=(\S+)\s+key=(\S+)\s*::\s*(.*)$`)
+	for sc.Scan() {
+		line := strings.TrimSpace(sc.Text())
+		if m := re.FindStringSubmatch(line); m != nil {
+			known = append(known, knownFinding{m[1], m[2], m[3]})
+		} else if strings.HasPrefix(line, "fixed:") {
+			fixed = append(fixed, line)
+		}
+	}
+	return
+}
+
+type vectorFile struct {
+	Harness string            `json:"harness"`
+	Pkg     string            `json:"pkg"`
+	Vars    map[string]uint64 `json:"vars"`
+	Params  map[string]int    `json:"params"`
+	Expect  string            `json:"expect,omitempty"`   // obligation#class expected to fail
+	Kind    string            `json:"kind,omitempty"`
+	Detail  string            `json:"detail,omitempty"`
+	Obs     []string          `json:"observed,omitempty"`
+	Property string           `json:"property,omitempty"`
+}
+
+type nativeResult struct {
+	Outcome string   `json:"outcome"`
+	Failed  []string `json:"failed"`
+	Obs     []string `json:"obs"`
+}
+
+// buildNative compiles the native replay binary for harness package pkg.
+func buildNative(verifDir, pkg string) (string, error) {
+	ov, _, err := overlayFiles(verifDir)
+	if err != nil {
+		return "", err
+	}
+	// registry of harness functions
+	dir := filepath.Join(verifDir, "harness", pkg)
+	ents, _ := os.ReadDir(dir)
+	re := regexp.MustCompile(`(?m)^func (Harness[A-Za-z0-9_]*)\(\)`)
+	var names []string
+	for _, f := range ents {
+		if !strings.HasSuffix(f.Name(), ".go") {
+			continue
+		}
+		b, _ := os.ReadFile(filepath.Join(dir, f.Name()))
+		for _, m := range re.FindAllSubmatch(b, -1) {
+			names = append(names, string(m[1]))
+		}
+	}
+	sort.Strings(names)
+	var sb strings.Builder
+	sb.WriteString("package zz" + pkg + "\n\nimport (\n\t\"encoding/json\"\n\t\"fmt\"\n\t\"os\"\n\t\"testing\"\n\n\tverif \"" + verifPkg + "\"\n)\n\n")
+	sb.WriteString("var zzHarnesses = map[string]func(){\n")
+	for _, n := range names {
+		fmt.Fprintf(&sb, "\t%q: %s,\n", n, n)
+	}
+	sb.WriteString("}\n\n")
+	sb.WriteString(`func TestZZReplay(t *testing.T) {
+	var files []string
+	b, err := os.ReadFile(os.Getenv("GOSYM_VECTORS"))
+	if err != nil {
+		t.Fatal(err)
+	}
+	if err := json.Unmarshal(b, &files); err != nil {
+		t.Fatal(err)
+	}
+	name := os.Getenv("GOSYM_HARNESS")
+	h := zzHarnesses[name]
+	if h == nil {
+		t.Fatalf("no harness %q", name)
+	}
+	for i, f := range files {
+		if err := verif.Load(f); err != nil {
+			t.Fatal(err)
+		}
+		out := verif.RunNative(h)
+		r, _ := json.Marshal(map[string]interface{}{"outcome": out, "failed": verif.Failed, "obs": verif.Obs})
+		fmt.Printf("NATIVE-RESULT %d %s\n", i, r)
+	}
+}
+`)
+	tmp, err := os.MkdirTemp(filepath.Join(verifDir, "bin"), "ov")
+	if err != nil {
+		return "", err
+	}
+	defer os.RemoveAll(tmp)
+	repl := map[string]string{}
+	i := 0
+	for virt, content := range ov {
+		real := filepath.Join(tmp, fmt.Sprintf("f%d.go", i))
+		i++
+		if err := os.WriteFile(real, content, 0o644); err != nil {
+			return "", err
+		}
+		repl[virt] = real
+	}
+	reg := filepath.Join(tmp, "registry_test.go")
+	os.WriteFile(reg, []byte(sb.String()), 0o644)
+	repl[filepath.Join(repoDir, "internal", "zz"+pkg, "zz_registry_test.go")] = reg
+	oj, _ := json.Marshal(map[string]interface{}{"Replace": repl})
+	ovPath := filepath.Join(tmp, "overlay.json")
+	os.WriteFile(ovPath, oj, 0o644)
+	bin := filepath.Join(verifDir, "bin", "native_"+pkg+".test")
+	cmd := exec.Command("go", "test", "-c", "-tags", "verif", "-vet=off", "-overlay", ovPath, "-o", bin, "./internal/zz"+pkg+"/")
+	cmd.Dir = repoDir
+	cmd.Env = append(os.Environ(), "GOFLAGS=-mod=mod", "GOPROXY=off")
+	out, err := cmd.CombinedOutput()
+	if err != nil {
+		return "", fmt.Errorf("native build failed: %v\n%s", err, out)
+	}
+	return bin, nil
+}
+
+// runNative runs the compiled harness on the given vector files.
+func runNative(bin, verifDir, harness string, files []string, timeout time.Duration) ([]nativeResult, string, error) {
+	lf, err := os.CreateTemp(filepath.Join(verifDir, "bin"), "vecs*.json")
+	if err != nil {
+		return nil, "", err
+	}
+	defer os.Remove(lf.Name())
+	b, _ := json.Marshal(files)
+	lf.Write(b)
+	lf.Close()
+	cmd := exec.Command(bin, "-test.run", "^TestZZReplay$", "-test.timeout", fmt.Sprint(timeout))
+	cmd.Dir = verifDir
+	cmd.Env = append(os.Environ(), "GOSYM_VECTORS="+lf.Name(), "GOSYM_HARNESS="+harness)
+	out, runErr := cmd.CombinedOutput()
+	res := make([]nativeResult, len(files))
+	got := 0
+	for _, line := range strings.Split(string(out), "\n") {
+		if !strings.HasPrefix(line, "NATIVE-RESULT ") {
+			continue
+		}
+		var idx int
+		rest := strings.TrimPrefix(line, "NATIVE-RESULT ")
+		sp := strings.IndexByte(rest, ' ')
+		fmt.Sscanf(rest[:sp], "%d", &idx)
+		var nr nativeResult
+		if json.Unmarshal([]byte(rest[sp+1:]), &nr) == nil && idx < len(res) {
+			res[idx] = nr
+			got++
+		}
+	}
+	if got < len(files) {
+		// the process died (fatal error, timeout, os.Exit): mark the first missing one
+		for i := range res {
+			if res[i].Outcome == "" {
+				res[i].Outcome = "process-died"
+				break
+			}
+		}
+	}
+	return res, string(out), runErr
+}
+
+func writeVector(path string, v vectorFile) error {
+	os.MkdirAll(filepath.Dir(path), 0o755)
+	b, _ := json.MarshalIndent(v, "", " ")
+	return os.WriteFile(path, b, 0o644)
+}
+
+type evidence struct {
+	PropertyID  string                 `json:"property_id"`
+	Tier        string                 `json:"tier"`
+	Seed        int                    `json:"seed"`
+	Level       string                 `json:"level"`
+	Coverage    map[string]interface{} `json:"coverage"`
+	Assumptions []string               `json:"assumptions"`
+	WallS       float64                `json:"wall_s"`
+	Violations  int                    `json:"violations"`
+}
+
+func cmdCheck(args []string) {
+	fs := flag.NewFlagSet("check", flag.ExitOnError)
+	verifDir := fs.String("verif", "/verif", "verif directory")
+	tier := fs.String("tier", "quick", "quick|thorough")
+	replay := fs.String("replay", "", "replay a vector file natively")
+	only := fs.String("only", "", "run only harnesses whose name contains this")
+	workers := fs.Int("workers", 16, "workers")
+	noNative := fs.Bool("no-native", false, "skip native replay / differential validation")
+	if len(args) < 1 {
+		fatalf("usage: gosym check <property> [--tier quick|thorough] [--replay file]")
+	}
+	prop := args[0]
+	fs.Parse(args[1:])
+	if t := os.Getenv("VERIF_TIER"); t != "" && *tier == "" {
+		*tier = t
+	}
+	seed := 0
+	fmt.Sscanf(os.Getenv("VERIF_SEED"), "%d", &seed)
+
+	if *replay != "" {
+		os.Exit(doReplay(*verifDir, prop, *replay))
+	}
+	specs, ok := checks[prop]
+	if !ok {
+		fatalf("no check registered for %s", prop)
+	}
+	t0 := time.Now()
+	known, _ := loadKnown(*verifDir)
+	knownByKey := map[string]knownFinding{}
+	for _, k := range known {
+		if k.Property == prop {
+			knownByKey[k.Key] = k
+		}
+	}
+
+	// one load for all harness packages of this property
+	pkgSet := map[string]bool{}
+	for _, s := range specs {
+		pkgSet[s.Pkg] = true
+	}
+	var patterns []string
+	for p := range pkgSet {
+		patterns = append(patterns, modPath+"/internal/zz"+p)
+	}
+	sort.Strings(patterns)
+	tl := time.Now()
+	ld, err := load(*verifDir, patterns)
+	if err != nil {
+		fatalf("load: %v", err)
+	}
+	loadS := time.Since(tl).Seconds()
+
+	natBins := map[string]string{}
+	if !*noNative {
+		for p := range pkgSet {
+			bin, err := buildNative(*verifDir, p)
+			if err != nil {
+				fmt.Fprintf(os.Stderr, "warning: %v\n", err)
+				continue
+			}
+			natBins[p] = bin
+		}
+	}
+
+	violations := 0
+	knownHit := map[string]bool{}
+	var inconclusive []string
+	var harnessEv []map[string]interface{}
+	totalPaths, totalQueries, totalDec, totalNontrivial := 0, int64(0), 0, 0
+	validated := 0
+	var samples []interface{}
+	funcs := map[string]bool{}
+	var solverNS int64
+	obligations := map[string]int{}
+	reachedAll := map[string]int{}
+	var unconfirmed []string
+
+	for _, s := range specs {
+		if *only != "" && !strings.Contains(s.Name, *only) {
+			continue
+		}
+		if s.OnlyThorough && *tier != "thorough" {
+			continue
+		}
+		params := s.Quick
+		wall := s.QuickWall
+		if *tier == "thorough" {
+			if s.Thorough != nil {
+				params = s.Thorough
+			}
+			wall = s.ThoroughWall
+		}
+		if wall == 0 {
+			wall = 5 * time.Minute
+			if *tier == "thorough" {
+				wall = 60 * time.Minute
+			}
+		}
+		maxSteps := s.MaxSteps
+		if maxSteps == 0 {
+			maxSteps = 5000000
+		}
+		to := s.TimeoutMS
+		if to == 0 {
+			to = 20000
+		}
+		cfg := RunConfig{Harness: s.Name, Pkg: modPath + "/internal/zz" + s.Pkg, Params: params, Solver: parseSolverKind(s.Solver), TimeoutMS: to,
+			MaxSteps: maxSteps, WallBudget: wall, Workers: *workers, ScheduleMode: s.Schedule, MapOrderMode: s.MapOrder, PreemptBound: s.Preempt,
+			Race: s.Race, PoolDirty: s.PoolDirty}
+		hr := explore(ld, cfg)
+		totalPaths += hr.Paths
+		totalQueries += hr.Solver.Queries
+		totalDec += hr.Decisions
+		solverNS += hr.Solver.WallNS
+		for k := range hr.Funcs {
+			funcs[k] = true
+		}
+		for k, n := range hr.Obligations {
+			obligations[k] += n
+		}
+		for k, n := range hr.Reached {
+			reachedAll[s.Name+":"+k] += n
+		}
+		nontrivial := hr.Outcomes["done"] + hr.Outcomes["panic"]
+		totalNontrivial += nontrivial
+		status := "clean"
+		if hr.Truncated {
+			status = "truncated"
+			inconclusive = append(inconclusive, fmt.Sprintf("%s: exploration truncated (wall/max-paths) after %d paths", s.Name, hr.Paths))
+		}
+		for _, oc := range []string{"unsupported", "budget", "solver-unknown", "engine-error", "init-failed", "aborted"} {
+			if hr.Outcomes[oc] > 0 {
+				status = "inconclusive"
+				inconclusive = append(inconclusive, fmt.Sprintf("%s: %d paths ended %s", s.Name, hr.Outcomes[oc], oc))
+			}
+		}
+		if hr.Unknowns > 0 {
+			status = "inconclusive"
+			inconclusive = append(inconclusive, fmt.Sprintf("%s: %d solver answers unknown", s.Name, hr.Unknowns))
+		}
+		for _, d := range hr.Inconclusive {
+			inconclusive = append(inconclusive, s.Name+": "+firstLines(d, 6))
+		}
+		if len(hr.Reached) == 0 && hr.Paths > 0 && status == "clean" {
+			status = "vacuous"
+			inconclusive = append(inconclusive, s.Name+": no Reach marker was reached (vacuous harness)")
+		}
+
+		// native validation of passing paths
+		nat := natBins[s.Pkg]
+		mismatch := 0
+		if nat != "" && !s.NoNative && len(hr.PassVectors) > 0 {
+			vdir := filepath.Join(*verifDir, "bin", "vec-"+s.Name)
+			os.MkdirAll(vdir, 0o755)
+			var files []string
+			for i, pv := range hr.PassVectors {
+				f := filepath.Join(vdir, fmt.Sprintf("pass%d.json", i))
+				writeVector(f, vectorFile{Harness: s.Name, Pkg: s.Pkg, Vars: pv.Vars, Params: params})
+				files = append(files, f)
+			}
+			res, out, _ := runNative(nat, *verifDir, s.Name, files, 5*time.Minute)
+			for i, r := range res {
+				want := obsStrings(hr.PassVectors[i].Observed)
+				if r.Outcome == "done" && len(r.Failed) == 0 && equalStrings(r.Obs, want) {
+					validated++
+				} else {
+					mismatch++
+					if mismatch <= 3 {
+						inconclusive = append(inconclusive, fmt.Sprintf("%s: engine/native mismatch on a passing path: native outcome=%q failed=%v obs=%v, engine obs=%v vars=%v", s.Name, r.Outcome, r.Failed, r.Obs, want, hr.PassVectors[i].Vars))
+					}
+				}
+			}
+			if mismatch > 0 {
+				status = "engine-mismatch"
+				_ = out
+			}
+			os.RemoveAll(vdir)
+		}
+
+		// counterexamples
+		for _, c := range hr.Cex {
+			key := c.Obligation + "#" + c.Class
+			vars := filterModel(c.Model, c.Choices)
+			h := sha1.Sum([]byte(fmt.Sprint(key, vars)))
+			rp := filepath.Join(*verifDir, "replays", prop, fmt.Sprintf("%s-%x.json", sanitize(key), h[:4]))
+			vf := vectorFile{Harness: s.Name, Pkg: s.Pkg, Vars: vars, Params: params, Expect: key, Kind: c.Kind, Detail: firstLines(c.Detail, 3), Obs: obsStrings(c.Observed), Property: prop}
+			confirmed := false
+			why := ""
+			if s.NoNative || nat == "" {
+				why = "no native replay available for this harness"
+			} else {
+				tmpf := filepath.Join(*verifDir, "bin", fmt.Sprintf("cex-%x.json", h[:6]))
+				writeVector(tmpf, vf)
+				res, _, _ := runNative(nat, *verifDir, s.Name, []string{tmpf}, 2*time.Minute)
+				os.Remove(tmpf)
+				r := res[0]
+				switch c.Kind {
+				case "assert":
+					for _, f := range r.Failed {
+						if f == key {
+							confirmed = true
+						}
+					}
+				case "panic":
+					confirmed = strings.HasPrefix(r.Outcome, "panic")
+				case "deadlock", "fatal":
+					confirmed = r.Outcome == "process-died"
+				}
+				if !confirmed {
+					why = fmt.Sprintf("native run: outcome=%q failed=%v", r.Outcome, r.Failed)
+				}
+			}
+			if kf, isKnown := knownByKey[key]; isKnown {
+				if confirmed || s.NoNative {
+					if !knownHit[key] {
+						fmt.Printf("KNOWN-FINDING: property=%s %s %s\n", prop, key, kf.Desc)
+					}
+					knownHit[key] = true
+				} else {
+					unconfirmed = append(unconfirmed, key+": "+why)
+				}
+				continue
+			}
+			if confirmed {
+				writeVector(rp, vf)
+				fmt.Printf("VIOLATION property=%s replay=%s\n", prop, rp)
+				fmt.Printf("  obligation=%s kind=%s harness=%s vars=%v %s\n", key, c.Kind, s.Name, vars, firstLines(c.Detail, 2))
+				violations++
+			} else {
+				unconfirmed = append(unconfirmed, key+": "+why)
+				inconclusive = append(inconclusive, fmt.Sprintf("%s: counterexample for %s did not reproduce natively (%s) vars=%v", s.Name, key, why, vars))
+			}
+		}
+		for _, sm := range hr.Samples {
+			if len(samples) < 12 {
+				samples = append(samples, map[string]interface{}{"harness": s.Name, "vars": sm.Vars, "observed": obsStrings(sm.Observed), "decisions": sm.Trace})
+			}
+		}
+		harnessEv = append(harnessEv, map[string]interface{}{
+			"harness": s.Name, "params": params, "solver": cfg.Solver.String(), "status": status, "paths": hr.Paths, "outcomes": hr.Outcomes,
+			"symbolic_decisions": hr.Decisions, "ssa_steps": hr.Steps, "solver_queries": hr.Solver.Queries, "sat": hr.Solver.Sat, "unsat": hr.Solver.Unsat,
+			"unknown": hr.Solver.Unknown, "solver_s": float64(hr.Solver.WallNS) / 1e9, "wall_s": hr.WallS, "assert_evaluations": hr.Asserts,
+			"reach_markers": hr.Reached, "counterexamples": len(hr.Cex), "schedule_mode": s.Schedule, "map_order_mode": s.MapOrder, "note": s.Note,
+		})
+		fmt.Fprintf(os.Stderr, "[%s] %s: %s paths=%d outcomes=%v cex=%d queries=%d wall=%.1fs\n", prop, s.Name, status, hr.Paths, hr.Outcomes, len(hr.Cex), hr.Solver.Queries, hr.WallS)
+	}
+
+	// stale known findings are fine (a repaired defect prints nothing)
+	var fnList []string
+	byKind := map[string]int{}
+	for f := range funcs {
+		switch {
+		case strings.Contains(f, modPath+"/internal/zz"):
+			byKind["harness"]++
+		case strings.Contains(f, modPath):
+			byKind["badwolf"]++
+			fnList = append(fnList, f)
+		default:
+			byKind["stdlib_or_dep_interpreted"]++
+		}
+	}
+	sort.Strings(fnList)
+	if len(fnList) > 400 {
+		fnList = fnList[:400]
+	}
+	if len(samples) == 0 {
+		samples = append(samples, "no completed path")
+	}
+	ev := evidence{PropertyID: prop, Tier: *tier, Seed: seed, Level: "model_checking", WallS: time.Since(t0).Seconds(), Violations: violations}
+	ev.Coverage = map[string]interface{}{
+		"states":                        max1(totalPaths),
+		"transitions":                   max1(totalDec),
+		"traces_validated_against_impl": validated,
+		"samples":                       samples,
+		"evaluations":                   max1(int(totalQueries) + totalPaths),
+		"distinct_nontrivial":           totalNontrivial,
+		"rule":                          "states = completed symbolic paths (each a distinct decision trace, i.e. a distinct class of inputs/schedules); transitions = solver- or byte-domain-decided symbolic decisions; evaluations = SMT queries + paths; distinct_nontrivial = paths that ran to the end of the harness (done or panic) under a satisfiable path condition",
+		"exhaustive":                    len(inconclusive) == 0,
+		"harnesses":                     harnessEv,
+		"functions_encoded_badwolf":     fnList,
+		"functions_encoded_counts":      byKind,
+		"obligations":                   obligations,
+		"reach_markers":                 reachedAll,
+		"inconclusive":                  inconclusive,
+		"unconfirmed_counterexamples":   unconfirmed,
+		"known_findings_reproduced":     sortedKeys(knownHit),
+		"solver_time_s":                 float64(solverNS) / 1e9,
+		"load_and_ssa_build_s":          loadS,
+		"explanation":                   "bounded symbolic execution of the SSA of /repo's working tree (go/ssa, rebuilt this run); every branch on symbolic data decided by z3/cvc5 (or, for conditions over one independent byte, by exhaustive evaluation over its 256 values); assertions discharged as PC ∧ ¬assertion; counterexamples replayed natively",
+	}
+	ev.Assumptions = assumptionsFor(prop)
+	os.MkdirAll(filepath.Join(*verifDir, "evidence"), 0o755)
+	b, _ := json.MarshalIndent(ev, "", " ")
+	if err := os.WriteFile(filepath.Join(*verifDir, "evidence", prop+".json"), b, 0o644); err != nil {
+		fatalf("write evidence: %v", err)
+	}
+	for _, s := range inconclusive {
+		fmt.Fprintf(os.Stderr, "INCONCLUSIVE %s\n", firstLines(s, 8))
+	}
+	if violations > 0 {
+		os.Exit(1)
+	}
+	fmt.Printf("OK property=%s tier=%s paths=%d queries=%d known_findings=%d inconclusive=%d wall=%.0fs\n", prop, *tier, totalPaths, totalQueries, len(knownHit), len(inconclusive), time.Since(t0).Seconds())
+}
+
+func max1(n int) int {
+	if n < 1 {
+		return 1
+	}
+	return n
+}
+
+func obsStrings(o []Observation) []string {
+	out := []string{}
+	for _, x := range o {
+		out = append(out, x.Name+"="+x.Val)
+	}
+	return out
+}
+
+func equalStrings(a, b []string) bool {
+	if len(a) != len(b) {
+		return false
+	}
+	for i := range a {
+		if a[i] != b[i] {
+			return false
+		}
+	}
+	return true
+}
+
+func sanitize(s string) string {
+	return regexp.MustCompile(`[^A-Za-z0-9_.-]+`).ReplaceAllString(s, "_")
+}
+
+func doReplay(verifDir, prop, path string) int {
+	b, err := os.ReadFile(path)
+	if err != nil {
+		fatalf("%v", err)
+	}
+	var vf vectorFile
+	if err := json.Unmarshal(b, &vf); err != nil {
+		fatalf("%v", err)
+	}
+	bin, err := buildNative(verifDir, vf.Pkg)
+	if err != nil {
+		fatalf("%v", err)
+	}
+	res, out, _ := runNative(bin, verifDir, vf.Harness, []string{path}, 2*time.Minute)
+	r := res[0]
+	fmt.Printf("native replay of %s: outcome=%q failed=%v obs=%v\n", path, r.Outcome, r.Failed, r.Obs)
+	reproduced := false
+	switch vf.Kind {
+	case "assert":
+		for _, f := range r.Failed {
+			if f == vf.Expect {
+				reproduced = true
+			}
+		}
+	case "panic":
+		reproduced = strings.HasPrefix(r.Outcome, "panic")
+	default:
+		reproduced = r.Outcome == "process-died"
+	}
+	if reproduced {
+		fmt.Printf("VIOLATION property=%s replay=%s\n", prop, path)
+		return 1
+	}
+	fmt.Printf("not reproduced\n%s\n", firstLines(out, 30))
+	return 0
+}
